@@ -318,6 +318,25 @@ def _sdk_enum_member(ctx, module_name: str, cls_name: str, member: str):
     return None
 
 
+def _sdk_module_constant(module_name: str, name: str):
+    """a module-level literal of the installed SDK, read from its source text (nothing is imported)"""
+    import os
+    import sysconfig
+
+    rel = module_name.replace(".", os.sep)
+    for base in [sysconfig.get_paths()["purelib"]] + [p_ for p_ in __import__("sys").path if p_.endswith("site-packages")]:
+        for fn in (os.path.join(base, rel + ".py"), os.path.join(base, rel, "__init__.py")):
+            if os.path.exists(fn):
+                for st in ast.parse(open(fn, encoding="utf-8").read()).body:
+                    if isinstance(st, ast.Assign) and any(isinstance(t, ast.Name) and t.id == name for t in st.targets):
+                        try:
+                            return ast.literal_eval(st.value)
+                        except (ValueError, SyntaxError):
+                            return None
+                return None
+    return None
+
+
 def named_int_table(ctx) -> dict:
     """the constants pass's table of named integers; entries written as literals or as (int of) a member of an SDK enum"""
     cmod = ctx.model.module("pyteal.compiler.constants")
@@ -369,7 +388,18 @@ def r12_2b_named_ints(ctx):
         c = ctx.model.find_class(cname)
         for attr, lit in table.items():
             node = c.class_attrs.get(attr)
-            got = node.args[0].value if isinstance(node, ast.Call) and u(node.func) == "EnumInt" and node.args and isinstance(node.args[0], ast.Constant) else (u(node) if node is not None else None)
+            got = u(node) if node is not None else None
+            if isinstance(node, ast.Call) and u(node.func) == "EnumInt" and node.args:
+                a0 = node.args[0]
+                if isinstance(a0, ast.Constant):
+                    got = a0.value
+                elif isinstance(a0, ast.Attribute) and isinstance(a0.value, ast.Name):
+                    # a constant of the SDK (algosdk.constants.PAYMENT_TXN ...): read from its source text
+                    imp = c.module.imports.get(a0.value.id, "")
+                    if imp.startswith("algosdk"):
+                        v = _sdk_module_constant(imp, a0.attr)
+                        if v is not None:
+                            got = v
             ctx.check(got == lit, "R12.2", f"{cname}.{attr}", f"{cname}.{attr} is EnumInt({got!r}); it names the constant `{lit}` (= {TL.NAMED_INTS.get(lit)})", c.where, fact={"literal": got})
 
 
